@@ -492,6 +492,13 @@ def read_pairs(tier, seed):
                 pairs.append(mk(call, dict(name=name), dict(autodetect_encoding=auto)))
         pairs.append(mk(call, dict(name="header-error"), dict(ignore_header_errors=True), "ignored"))
         pairs.append(mk(call, dict(name="ragged"), dict(engine="normal"), "normal"))
+        # option values that make the call fail: a codec name Python does not know, a null_policy lasio does not know
+        for na in (0, 1):
+            pairs.append(mk(call, dict(small, nonascii=na), dict(encoding="no-such-codec"), "unknown-codec"))
+            pairs.append(mk(call, dict(small, nonascii=na, bom=1), dict(encoding="no-such-codec"), "unknown-codec-bom"))
+            pairs.append(mk(call, dict(small, nonascii=na), dict(encoding="no-such-codec", autodetect_encoding=False), "unknown-codec-noauto"))
+        pairs.append(mk(call, small, dict(null_policy="no-such-policy"), "unknown-null-policy"))
+        pairs.append(mk(call, small, dict(engine="no-such-engine"), "unknown-engine"))
         pairs.append(mk(call, dict(name="ragged", wrap="YES", curves=4), dict(), "wrapped"))
         for name in ("undecodable-early", "undecodable-late"):
             pairs.append(mk(call, dict(name=name), dict(encoding="utf-8", encoding_errors="strict"), "strict"))
